@@ -405,7 +405,8 @@ impl RefAdam {
         let v = o.beta2 * self.v + (1.0 - o.beta2) * g * g;
         let m_hat = m / (1.0 - o.beta1.powi(t as i32));
         let v_hat = v / (1.0 - o.beta2.powi(t as i32));
-        RefAdam { log_step: self.log_step + o.learning_rate * m_hat / (v_hat.sqrt() + o.epsilon), m, v, t }
+        let log_step = (self.log_step + o.learning_rate * m_hat / (v_hat.sqrt() + o.epsilon)).clamp(f64::MIN_POSITIVE.ln(), f64::MAX.ln());
+        RefAdam { log_step, m, v, t }
     }
 }
 
@@ -571,10 +572,10 @@ pub fn run(args: &Args, report: &mut Report) {
         }
         return;
     }
-    let n_dual = report.size(4000, 100_000);
-    let n_adam = report.size(1500, 40_000);
-    let n_search = report.size(1500, 40_000);
-    let n_adam_chain = report.size(240, 6000);
+    let n_dual = report.size(12_000, 300_000);
+    let n_adam = report.size(6000, 120_000);
+    let n_search = report.size(6000, 120_000);
+    let n_adam_chain = report.size(960, 20_000);
     crate::report::par_run(report, n_adam_chain, |i, rep| adam_chain_case(rep, seed, i, "C07"));
     crate::report::par_run(report, n_dual + n_adam + n_search, |i, rep| {
         if i < n_dual {
@@ -586,7 +587,7 @@ pub fn run(args: &Args, report: &mut Report) {
         }
     });
     // closed loop with confirmation stage
-    let n_closed = report.size(36, 288);
+    let n_closed = report.size(72, 576);
     let results = std::sync::Mutex::new(Vec::new());
     crate::report::par_run(report, n_closed, |i, rep| {
         if let Some((dev, se)) = closed_loop_case(rep, seed, i, false) {
